@@ -1,5 +1,7 @@
 import Dia.ServerThm
 import Dia.StreamSeq
+import Dia.StreamAll
+import Dia.NoPanic
 import Dia.HistoryThm
 import Dia.Examples
 /-! # C06 - Stream framing is independent of how bytes are segmented. Property theorems only.
@@ -47,6 +49,16 @@ theorem C06_read_all (cfg : Cfg) (dict : Lookup) (frames : List Bytes) (msgs : L
     (hne : noEmpty evs) (hflat : flat evs = frames.flatten ++ more) :
     decodeSeq cfg dict frames.length evs = (msgs.zip frames).map (fun mf => (COut.ok mf.1, mf.2.length)) :=
   decodeSeq_frames cfg dict frames msgs evs more hl hacc hne hflat
+
+/-- **C06, read side, streams that also carry refused frames.** `Framed f`: the frame announces its own size, between 20
+octets and 1 MiB. On a stream of such frames - whatever the message decoder thinks of their content: unknown command,
+unknown AVP, broken text - the i-th call reports exactly the verdict on the i-th frame and consumes exactly that frame,
+however the octets are delivered: a refused frame never costs an octet of its successors. (This is the function the
+driver runs for `sdec`.) -/
+theorem C06_read_refused (cfg : Cfg) (dict : Lookup) (frames : List Bytes) (evs : List REv) (more : Bytes)
+    (hfr : ∀ f ∈ frames, Framed f) (hne : noEmpty evs) (hflat : flat evs = frames.flatten ++ more) :
+    decodeSeqAll cfg dict frames.length evs = frames.map (fun f => (COut.ofDec (decMsg cfg dict f), f.length)) :=
+  decodeSeqAll_framed cfg dict frames evs more hfr (fun f _ => decMsg_ne_panic cfg dict f) hne hflat
 
 /-- **C06, write side, whole codec.** `Codec::encode` of a message whose bookkeeping is consistent, over a stream that
 accepts octets in arbitrary partial amounts with arbitrary pauses, reports success and has put exactly the RFC 6733
